@@ -7,4 +7,5 @@ pub mod model;
 pub mod reclog;
 pub mod emfh;
 pub mod emfgen;
+pub mod iofault;
 pub mod props;
